@@ -404,6 +404,11 @@ func (s *sched) keyRank(k any) int {
 func MapSet[K comparable, V any](m map[K]V, k K, v V) {
 	if s := S; s != nil && !s.abort {
 		s.keyRank(any(k))
+		if s.race != nil {
+			if o := mapObj(m); o != nil {
+				raceAccess(o, true)
+			}
+		}
 	}
 	m[k] = v
 }
